@@ -492,14 +492,119 @@ Section AsyncProofs.
       + unfold inv_stop. prj. cbn [pc_final]. repeat split; auto; try discriminate; congruence.
       + unfold inv_stop. prj. cbn [pc_final]. repeat split; auto; try discriminate; congruence.
       + unfold inv_stop, do_final_swap. prj. cbn [pc_final].
-        repeat split; auto; try discriminate; try congruence.
-        intros _ _. apply H2. apply H3. reflexivity.
+        repeat split; auto; try discriminate; try congruence;
+          try (intros _ _; apply H2; apply H3; reflexivity).
     - destruct (mark (gh s)) eqn:Em; inversion Hstep; subst s'; clear Hstep.
       unfold inv_stop. prj. repeat split; auto; try discriminate.
       + intros _. eexists. split; [reflexivity|lia].
       + intros Hf Hd. destruct (H4 Hf Hd) as [m [Hm _]]. discriminate.
     - destruct (mark (gh s)) eqn:Em; try discriminate. destruct (pc (be s)) eqn:Epc; try discriminate.
       destruct (joined (gh s)) eqn:Ej; inversion Hstep; subst s'; clear Hstep.
-      unfold inv_stop. prj. rewrite Epc in *. rewrite Em in *. repeat split; auto.
+      unfold inv_stop. prj. rewrite ?Epc in *. repeat split; auto.
+  Qed.
+  (* ------------------------------------------------------------------ invariant 4: bounds, recycling *)
+  Definition lt_cap (b : buf R) : Prop := blen b < p_cap P.
+
+  Definition nxt_ok (s : astate) : Prop := nxt (sh s) = false -> bufs (sh s) <> [].
+
+  Definition inv_bound (s : astate) : Prop :=
+    fault (be s) = false /\ lt_cap (cur (sh s)) /\ Forall lt_cap (bufs (sh s)) /\
+    match pc (be s) with
+    | PStart | PLock | PWait | PFinalLock => nb1 (be s) = true /\ nb2 (be s) = true /\ nxt_ok s
+    | PAnn b | PWriteAnn b => (p_thr P < length b)%nat /\ twn (be s) = length b /\ nxt_ok s
+    | PWrite todo false =>
+        (1 <= twn (be s))%nat /\ (nb2 (be s) = false -> (2 <= twn (be s))%nat) /\
+        (length todo <= p_thr P)%nat /\ nxt_ok s
+    | _ => True
+    end.
+
+  Lemma inv_bound_init progs0 : inv_bound (init progs0).
+  Proof.
+    destruct params_facts as [_ [_ [_ Hc]]].
+    unfold inv_bound, init, lt_cap, nxt_ok. prj. cbn [empty_buf blen]. repeat split; auto. intros; discriminate.
+  Qed.
+
+  Lemma recycle_ok (b : backend_t R) :
+    fault b = false -> (1 <= twn b)%nat -> (nb2 b = false -> (2 <= twn b)%nat) ->
+    fault (recycle R P b) = false /\ nb1 (recycle R P b) = true /\ nb2 (recycle R P b) = true /\
+    pc (recycle R P b) = pc b.
+  Proof.
+    destruct params_facts as [_ [Hr _]].
+    intros Hf H1 H2. unfold recycle.
+    destruct (Nat.min (twn b) (p_rkeep P)) as [|k0] eqn:Ek; [lia|].
+    destruct (nb1 b); destruct (nb2 b) eqn:E2; try (prj; rewrite Hf; auto; fail).
+    destruct k0 as [|k1]; [specialize (H2 eq_refl); lia|]. prj. rewrite Hf. auto.
+  Qed.
+
+  Lemma fe_append_bound r (s : shared_t R) :
+    lt_cap (cur s) -> Forall lt_cap (bufs s) ->
+    lt_cap (cur (fe_append R rlen P r s)) /\ Forall lt_cap (bufs (fe_append R rlen P r s)) /\
+    ((nxt s = false -> bufs s <> []) -> nxt (fe_append R rlen P r s) = false -> bufs (fe_append R rlen P r s) <> []).
+  Proof.
+    destruct params_facts as [_ [_ [_ Hc]]].
+    intros Hcur Hb. unfold fe_append, lt_cap in *.
+    destruct (Z.ltb_spec (rlen r) (p_cap P - blen (cur s))) as [Hfit|Hno]; prj.
+    - unfold buf_append. destruct (Z.ltb_spec (rlen r) (p_cap P - blen (cur s))); prj; repeat split; auto; lia.
+    - unfold buf_append. cbn [empty_buf blen].
+      repeat split.
+      + destruct (rlen r <? p_cap P - 0) eqn:E; prj; cbn [empty_buf blen]; [apply Z.ltb_lt in E; lia|lia].
+      + apply Forall_app. split; [exact Hb|]. constructor; [exact Hcur|constructor].
+      + intros _ _ Hx. destruct (bufs s); discriminate.
+  Qed.
+
+  Lemma loop_head_bound (x : astate) :
+    fault (be x) = false -> lt_cap (cur (sh x)) -> Forall lt_cap (bufs (sh x)) ->
+    nb1 (be x) = true -> nb2 (be x) = true -> nxt_ok x -> inv_bound (loop_head R P x).
+  Proof.
+    intros. destruct (loop_head_shape x) as [p [E Hcase]]. rewrite E.
+    unfold inv_bound, nxt_ok in *. prj.
+    destruct Hcase as [[Hp _]|[[Hp _]|[Hp _]]]; subst p; repeat split; auto.
+  Qed.
+
+  Lemma inv_bound_step s l s' : inv_bound s -> stepP s l = Some s' -> inv_bound s'.
+  Proof.
+    destruct params_facts as [Hk [Hrk [Hkt Hc]]].
+    intros [Hf [Hcur [Hb Hpc]]] Hstep. destruct l as [t| | |]; cbn [step] in Hstep.
+    - destruct (nth_error (progs s) t) as [[|r rest]|]; try discriminate.
+      inversion Hstep; subst s'; clear Hstep.
+      destruct (fe_append_bound r (sh s) Hcur Hb) as [A1 [A2 A3]].
+      unfold inv_bound, nxt_ok in *. prj. repeat split; auto.
+      destruct (pc (be s)) as [| | |batch|batch|todo [|]| |]; auto;
+        repeat match goal with H : _ /\ _ |- _ => destruct H end; repeat split; auto.
+    - unfold be_step in Hstep.
+      destruct (pc (be s)) as [| | |batch|batch|[|b rest] [|]| |] eqn:Epc; inversion Hstep; subst s'; clear Hstep.
+      + destruct Hpc as [? [? ?]]. apply loop_head_bound; auto.
+      + destruct Hpc as [Hn1 [Hn2 Hnx]]. destruct (bufs (sh s)) eqn:Eb.
+        * unfold inv_bound, nxt_ok in *. prj. rewrite Eb in *. repeat split; auto.
+        * unfold inv_bound, do_swap, nxt_ok, lt_cap in *. prj. cbn [empty_buf blen].
+          repeat split; auto.
+          destruct (Nat.ltb_spec (p_thr P) (length (bufs (sh s) ++ [cur (sh s)]))) as [Hgt|Hle].
+          -- repeat split; auto. intros; discriminate.
+          -- rewrite app_length in *. cbn [length] in *. repeat split; try lia; try (intros; discriminate).
+             intros Hx. rewrite Eb. cbn [length]. lia.
+      + destruct Hpc as [Hn1 [Hn2 Hnx]].
+        unfold inv_bound, do_swap, nxt_ok, lt_cap in *. prj. cbn [empty_buf blen].
+        repeat split; auto.
+        destruct (Nat.ltb_spec (p_thr P) (length (bufs (sh s) ++ [cur (sh s)]))) as [Hgt|Hle].
+        * repeat split; auto. intros; discriminate.
+        * rewrite app_length in *. cbn [length] in *. repeat split; try lia; try (intros; discriminate).
+          intros Hx. destruct (nxt (sh s)) eqn:En; [congruence|].
+          specialize (Hnx eq_refl). destruct (bufs (sh s)); [congruence|]. cbn [length]. lia.
+      + destruct Hpc as [? [? ?]]. unfold inv_bound, nxt_ok in *. prj. repeat split; auto.
+      + destruct Hpc as [Hgt [Htw Hnx]]. unfold inv_bound, nxt_ok in *. prj. repeat split; auto; try lia.
+        rewrite firstn_length. lia.
+      + unfold inv_bound. prj. repeat split; auto.
+      + destruct Hpc as [Ht1 [Ht2 [Hlen Hnx]]].
+        destruct (recycle_ok (be s) Hf Ht1 Ht2) as [R1 [R2 [R3 R4]]].
+        apply loop_head_bound; prj; auto.
+      + unfold inv_bound. prj. repeat split; auto.
+      + destruct Hpc as [Ht1 [Ht2 [Hlen Hnx]]]. unfold inv_bound, nxt_ok in *. prj. cbn [length] in Hlen.
+        repeat split; auto. lia.
+      + unfold inv_bound, do_final_swap, lt_cap. prj. cbn [empty_buf blen]. repeat split; auto.
+    - destruct (mark (gh s)); inversion Hstep; subst s'; clear Hstep.
+      unfold inv_bound, nxt_ok in *. prj. repeat split; auto.
+    - destruct (mark (gh s)); try discriminate. destruct (pc (be s)) eqn:Epc; try discriminate.
+      destruct (joined (gh s)); inversion Hstep; subst s'; clear Hstep.
+      unfold inv_bound in *. prj. rewrite ?Epc in *. repeat split; auto.
   Qed.
 End AsyncProofs.
